@@ -123,6 +123,7 @@ impl LevelCfg {
                 1 => 20,
                 2 => 10,
                 3 => 10,
+                4 => 20,
                 n => 30 + n,
             };
             base + (t as u64 % 2)
@@ -578,9 +579,8 @@ impl LevelSubject {
     fn resting_after(&self, post: &LevelObs) -> u16 {
         let mut m = 0u16;
         for o in &post.orders {
-            let n = rec(o).id;
-            if n < 16 {
-                m |= 1 << n;
+            if let Some(k) = alphabet_id(rec(o).id) {
+                m |= 1 << k;
             }
         }
         m
@@ -909,7 +909,7 @@ impl Subject for LevelSubject {
                     e.mres[i].as_ref().map(|r| r.describe()).unwrap_or_default(),
                     e.res.describe()
                 );
-            } else if m_after.canonical_orders() != e.post.orders {
+            } else if !same_orders(&m_after.canonical_orders(), &e.post.orders) {
                 agree = false;
                 why = format!(
                     "resting orders: model[{}] [{}] / implementation [{}]",
@@ -1024,8 +1024,8 @@ impl Subject for LevelSubject {
                 let oidv = oid(*id);
                 let present = e.pre.find(oidv).copied();
                 let others_same = |post: &LevelObs, pre: &LevelObs| {
-                    let a: Vec<&Ord_> = post.orders.iter().filter(|o| o_id(o) != oidv).collect();
-                    let b: Vec<&Ord_> = pre.orders.iter().filter(|o| o_id(o) != oidv).collect();
+                    let a: Vec<Rec> = post.orders.iter().filter(|o| !same_id(o_id(o), oidv)).map(rec).collect();
+                    let b: Vec<Rec> = pre.orders.iter().filter(|o| !same_id(o_id(o), oidv)).map(rec).collect();
                     a == b
                 };
                 let removal = matches!(
@@ -1071,7 +1071,7 @@ impl Subject for LevelSubject {
                         let now = e.post.find(oidv).copied();
                         match (u, now) {
                             (UpdObs::Order(r), Some(now)) => {
-                                if *r != now {
+                                if !same_order(r, &now) {
                                     vio(&mut out, format!(
                                         "C07 amendment returned {} but {} now rests",
                                         short(r), short(&now)));
@@ -1190,7 +1190,7 @@ pub fn check_c10_state(level: &PriceLevel, post: &LevelObs) -> (u64, Vec<String>
     let content_ok = |r: &PriceLevel, what: &str, msgs: &mut Vec<String>| {
         set_listing_permutation(Some(0));
         let o = observe(r);
-        if o.price != post.price || o.orders != post.orders {
+        if o.price != post.price || !same_orders(&o.orders, &post.orders) {
             msgs.push(format!(
                 "C10 {what}: content differs: original {} / rebuilt price={} {}",
                 post.describe(),
